@@ -43,7 +43,7 @@ T0 = 'integration_tests/tier-0/'
 T1 = 'integration_tests/tier-1/'
 INPUTS_QUICK = [T0 + 'mini-protein1_betasheet/aa.pdb', T0 + 'mini-protein2_helix/aa.pdb', T0 + 'mini-protein3_trp-cage/aa.pdb',
                 T0 + 'dipro-termini/aa.pdb', T1 + 'villin/aa.pdb', T1 + 'hst5/aa.pdb']
-INPUTS_MORE = [T1 + 'bpti/aa.pdb', T1 + '1UBQ/aa.pdb', T1 + '3i40/aa.pdb', T1 + '6LFO_gap/aa.pdb', T1 + 'lysozyme/aa.pdb']
+INPUTS_MORE = [T1 + 'bpti/aa.pdb', T1 + '1UBQ/aa.pdb', T1 + '3i40/3i40.pdb', T1 + '6LFO_gap/6LFO_gap.pdb', T1 + 'prot_modf_charmm/input.pdb', T1 + 'lysozyme/aa.pdb']
 OPTION_SETS = [
     ['-ff', 'martini3001'],
     ['-ff', 'martini3001', '-elastic'],
